@@ -230,6 +230,30 @@ theorem entry_spacing (k v ws1 ws2 ws3 ws4 : Str) (hws : ∀ ws ∈ [ws1, ws2, w
       unfold trimL; rw [dw_append isWs ws3 _ h3]; exact trimL_of_head hv.2.1
     rw [this, trimR_of_last hv.2.2]
 
+/-- **a continuation line is appended to the value**: a line ending in a backslash is joined with the next
+line — backslash dropped, blanks before it and around the next line removed, no separator inserted — wherever
+the next line is an ordinary one (not blank, not a comment, not a section header) -/
+theorem continuation_joins (f : Nat) (a nxt : Str) (rest : List Str) (ns : Str)
+    (h1 : (trim nxt).isEmpty = false) (h2 : isComment (trim nxt) = false) (h3 : isSectionLine (trim nxt) = false)
+    (h4 : (trimR a ++ trim nxt).getLast? ≠ some '\\') :
+    contLoop (f + 2) (a ++ ['\\']) (nxt :: rest) ns = (trimR a ++ trim nxt, rest, ns) := by
+  have hl : (a ++ ['\\']).getLast? = some '\\' := by simp
+  have hd : (a ++ ['\\']).dropLast = a := by simp
+  rw [contLoop]
+  simp only [hl, ne_eq, not_true_eq_false, if_false, hd, h1, h2, h3, Bool.or_self, Bool.false_eq_true]
+  rw [contLoop]
+  rw [if_pos h4]
+
+/-- blank and comment lines inside a continuation are skipped, the continuation goes on -/
+theorem continuation_skips_junk (f : Nat) (a junk : Str) (rest : List Str) (ns : Str)
+    (hj : (trim junk).isEmpty = true ∨ isComment (trim junk) = true) :
+    contLoop (f + 1) (a ++ ['\\']) (junk :: rest) ns = contLoop f (trimR a) rest ns := by
+  have hl : (a ++ ['\\']).getLast? = some '\\' := by simp
+  have hd : (a ++ ['\\']).dropLast = a := by simp
+  rw [contLoop]
+  simp only [hl, ne_eq, not_true_eq_false, if_false, hd]
+  rcases hj with h | h <;> simp [h]
+
 /-! ### Non-vacuity and pinned boundaries -/
 example : IsJunk "  # comment".toList := Or.inr (by decide)
 example : parseConfig "[a]\n\n# c\nk = v\n".toList = parseConfig "[a]\nk=v".toList := by decide +kernel
